@@ -27,6 +27,7 @@ Inductive pyval : Type :=
 | PStr (s : text)
 | PBytes (s : text)
 | PList (l : list pyval)
+| PTuple (l : list pyval)                  (* a tuple: never equal to a list, hashable iff its items are *)
 | PDict (kvs : list (text * pyval))        (* str keys, insertion ordered *)
 | PObj (id : N) (builtin : bool) (str : text).
    (* an object compared by identity [id]; [builtin] = (type(o).__module__ == "builtins");
@@ -347,6 +348,13 @@ Fixpoint pyeq (a b : pyval) : bool :=
          | x :: la', y :: lb' => pyeq x y && go la' lb'
          | _, _ => false
          end) la lb
+  | PTuple la, PTuple lb =>
+      (fix go (la lb : list pyval) : bool :=
+         match la, lb with
+         | [], [] => true
+         | x :: la', y :: lb' => pyeq x y && go la' lb'
+         | _, _ => false
+         end) la lb
   | PDict da, PDict db =>
       (length da =? length db)%nat &&
       (fix go (da : list (text * pyval)) : bool :=
@@ -365,9 +373,12 @@ Fixpoint pyeq (a b : pyval) : bool :=
       end
   end.
 
-Definition hashable (v : pyval) : bool :=
+(* hash(v) does not raise: lists and dicts never, a tuple iff all its items *)
+Fixpoint hashable (v : pyval) : bool :=
   match v with
   | PList _ | PDict _ => false
+  | PTuple l => (fix all (l : list pyval) : bool :=
+                   match l with [] => true | x :: r => hashable x && all r end) l
   | _ => true
   end.
 
